@@ -374,6 +374,8 @@ def run_check(prop: str, tier: str, master: int | None = None) -> int:
             print(f"KNOWN-FINDING: property={prop} {k.get('id')}: clause={v['clause']} key={v['key']} "
                   f"({len(items)} of {agg.runs} runs) {k.get('summary', '')}", flush=True)
             continue
+        if os.environ.get("SVSIM_STOP_FIRST") and len(new_violations) >= 3:
+            break       # sensitivity tooling only needs the verdict: three confirmed violation classes are enough
         # new violation: confirm by replay, shrink, replay again
         res = replay_scenario(prop, d["scenario"], seed)
         if not any(_vkey(x) == key for x in res.get("violations", [])):
